@@ -69,6 +69,16 @@ macro_rules! prim_domain {
         if <$t>::MIN < 0 {
             vals.extend([(0 as $t).wrapping_sub(1), (0 as $t).wrapping_sub(2), (0 as $t).wrapping_sub(10)]);
         }
+        // every 10^k + d that fits the type (d up to +-32768): values a float-based or word-based shortcut takes for
+        // a power of ten (alpha::near_powers_of_ten), both signs for the signed types
+        for v in near_powers_of_ten(<$t>::BITS) {
+            if let Ok(p) = <$t>::try_from(v.clone()) {
+                vals.push(p);
+            }
+            if let Ok(p) = <$t>::try_from(-v) {
+                vals.push(p);
+            }
+        }
         vals.sort();
         vals.dedup();
         for (a, xa) in $decs.iter().zip($xdecs.iter()) {
